@@ -41,6 +41,11 @@ BY_PROPERTY = {
             ('Mahotas.Proofs.PyBodyTiesC20b', ['Mahotas.pybody_colors_rgb2grey_eq_model', 'Mahotas.pybody_colors_rgb2grey_pixel',
                                                'Mahotas.pybody_colors_xyz2lab_pixel', 'Mahotas.pybody_colors_rgb2lab_eq_model',
                                                'Mahotas.pybody_colors_rgb2lab_pixel', 'Mahotas.pybody_colors_rgb2sepia_eq_model'])],
+    'C13': [('Mahotas.Proofs.PyBodyTiesC13', ['Mahotas.pybody_labeled_labeled_sum_eq_model', 'Mahotas.pybody_labeled_labeled_max_eq_model',
+                                              'Mahotas.pybody_labeled_labeled_min_eq_model', 'Mahotas.pybody_labeled_labeled_size_eq_model',
+                                              'Mahotas.pybody_labeled_remove_regions_where_eq_model',
+                                              'Mahotas.pybody_labeled_is_same_labeling_eq_model',
+                                              'Mahotas.pybody_labeled_bwperim_eq_model', 'Mahotas.pybody_labeled_bwperim_binary'])],
     'C15': [('Mahotas.Proofs.PyBodyTiesC15', ['Mahotas.pybody_euler_euler_eq_model'])],
     'C17': [('Mahotas.Proofs.PyBodyTiesC17', ['Mahotas.pybody_convolve__wavelet_center_compute_eq_model',
                                               'Mahotas.pybody_convolve_wavelet_center_eq_model',
